@@ -36,17 +36,22 @@ Record val := mkV {
   v_token : Z; v_stake : Z; v_stoken : Z; v_sstake : Z;
   v_rdist : Z; v_rtotal : Z; v_misc : Z;
   v_aid : nat; v_len : nat;          (* Delegations = arrs[v_aid][0 .. v_len) *)
-  v_deleted : bool }.
+  v_deleted : bool;
+  v_oid : nat }.                     (* identity of the Go object (with v_aid): callers may mutate the stored object
+                                        in place while journal entries still point at it; never observed *)
 
 Definition set_view (v : val) (aid len : nat) : val :=
   mkV (v_addr v) (v_role v) (v_status v) (v_token v) (v_stake v) (v_stoken v) (v_sstake v)
-      (v_rdist v) (v_rtotal v) (v_misc v) aid len (v_deleted v).
+      (v_rdist v) (v_rtotal v) (v_misc v) aid len (v_deleted v) (v_oid v).
 Definition set_deleted (v : val) (b : bool) : val :=
   mkV (v_addr v) (v_role v) (v_status v) (v_token v) (v_stake v) (v_stoken v) (v_sstake v)
-      (v_rdist v) (v_rtotal v) (v_misc v) (v_aid v) (v_len v) b.
+      (v_rdist v) (v_rtotal v) (v_misc v) (v_aid v) (v_len v) b (v_oid v).
+Definition set_oid (v : val) (k : nat) : val :=
+  mkV (v_addr v) (v_role v) (v_status v) (v_token v) (v_stake v) (v_stoken v) (v_sstake v)
+      (v_rdist v) (v_rtotal v) (v_misc v) (v_aid v) (v_len v) (v_deleted v) k.
 Definition set_total (v : val) (token stake : Z) : val :=
   mkV (v_addr v) (v_role v) (v_status v) token stake (v_stoken v) (v_sstake v)
-      (v_rdist v) (v_rtotal v) (v_misc v) (v_aid v) (v_len v) (v_deleted v).
+      (v_rdist v) (v_rtotal v) (v_misc v) (v_aid v) (v_len v) (v_deleted v) (v_oid v).
 
 (* the scalar fields a caller writes into a PartialCopy before UpdateValidator *)
 Record upd := mkU {
@@ -54,7 +59,7 @@ Record upd := mkU {
   u_rdist : Z; u_rtotal : Z; u_misc : Z }.
 Definition apply_upd (v : val) (u : upd) : val :=
   mkV (v_addr v) (u_role u) (u_status u) (u_token u) (u_stake u) (u_stoken u) (u_sstake u)
-      (u_rdist u) (u_rtotal u) (u_misc u) (v_aid v) (v_len v) (v_deleted v).
+      (u_rdist u) (u_rtotal u) (u_misc u) (v_aid v) (v_len v) (v_deleted v) (v_oid v).
 
 (* persisted (RLP) form of a validator: scalars + the delegation list by value *)
 Record pval := mkP { p_v : val; p_dl : list (option dfrom) }.
@@ -333,6 +338,40 @@ Definition get_validator (s : state) (a : Z) : state * option val :=
 Definition vj_push (s : state) (e : ventry) : state := w_vjournal s (e :: vjournal s).
 Definition aj_push (s : state) (e : aentry) : state := w_ajournal s (e :: ajournal s).
 
+(* object identities: a fresh one lies above every identity held by the cache or the journal *)
+Definition ventry_oid (e : ventry) : nat :=
+  match e with
+  | VCreate _ (Some p) _ => v_oid p
+  | VCreate _ None _ => 0%nat
+  | VUpdate _ nw old => Nat.max (v_oid nw) (v_oid old)
+  | VDelete _ old => v_oid old
+  end.
+Definition fresh_oid (s : state) : nat :=
+  S (Nat.max (fold_right (fun p m => Nat.max (v_oid (snd p)) m) 0%nat (vmap s))
+             (fold_right (fun e m => Nat.max (ventry_oid e) m) 0%nat (vjournal s))).
+
+(* is n the Go object v?  (PartialCopy shares the slice, so copies differ in v_oid only;
+   UpdateDelegation's and CreateValidator's new objects have a new array) *)
+Definition same_obj (n v : val) : bool := Nat.eqb (v_oid n) (v_oid v) && Nat.eqb (v_aid n) (v_aid v).
+Definition aliased (a : Z) (v : val) (e : ventry) : bool :=
+  match e with
+  | VUpdate a' n _ => Z.eqb a' a && same_obj n v
+  | _ => false
+  end.
+(* the stored object v of a is overwritten in place with nw: validatorUpdateChange entries hold
+   newVal by pointer, so every entry whose newVal is that object now reads nw *)
+Definition retarget (a : Z) (v nw : val) (e : ventry) : ventry :=
+  match e with
+  | VUpdate a' n old => if aliased a v e then VUpdate a' nw old else e
+  | _ => e
+  end.
+(* length of the journal up to and including the newest entry that points at v *)
+Fixpoint alias_depth (a : Z) (v : val) (j : list ventry) : nat :=
+  match j with
+  | [] => 0%nat
+  | e :: r => if aliased a v e then length j else alias_depth a v r
+  end.
+
 Definition with_stat (s : state) (o : option stat) : option state :=
   match o with None => None | Some st => Some (w_stat s st) end.
 
@@ -347,7 +386,7 @@ Definition update_validator (s : state) (nw old : val) : option state :=
        end.
 
 Definition new_validator (a role status token stake : Z) (aid : nat) : val :=
-  mkV a role status token stake token stake 0 0 0 aid 0 false.
+  mkV a role status token stake token stake 0 0 0 aid 0 false 0.
 
 (* CreateValidator *)
 Definition create_validator (s : state) (a role status token stake : Z) : option state :=
@@ -369,7 +408,7 @@ Definition remove_validator (s : state) (a : Z) : option state :=
     if v_deleted v then Some s                       (* already removed *)
     else
       let v' := set_deleted v true in
-      let s1 := vj_push s (VDelete a v) in           (* a PartialCopy taken before the flag is set *)
+      let s1 := vj_push s (VDelete a (set_oid v (fresh_oid s))) in   (* a PartialCopy taken before the flag is set *)
       let s2 := w_vindex (w_vmap s1 (aset (vmap s1) a v')) (srem a (vindex s1)) in
       with_stat s2 (decr_stat (stat_ s2) v')
   end.
@@ -715,6 +754,7 @@ Inductive op :=
 | OFund (a : Z)
 | OCreate (a role status token stake : Z)
 | OUpdate (a : Z) (u : upd)          (* old := Get(a); new := old.PartialCopy(); write u; UpdateValidator(new, old) *)
+| OUpdateIn (a : Z) (u : upd)        (* live := Get(a); old := live.PartialCopy(); write u into live; UpdateValidator(live, old) *)
 | ORemove (a : Z)
 | ODelegate (d a amt : Z)            (* val := Get(a); UpdateDelegation(d, val, amt) *)
 | OSnapshot
@@ -732,7 +772,16 @@ Definition step (s : state) (o : op) : option state :=
   | OUpdate a u =>
     match get_validator s a with
     | (s1, None) => Some s1
-    | (s1, Some old) => update_validator s1 (apply_upd old u) old
+    | (s1, Some old) => update_validator s1 (set_oid (apply_upd old u) (fresh_oid s1)) old
+    end
+  | OUpdateIn a u =>
+    (* the live object keeps its place in the cache and in the journal entries that point at it; in the
+       model it takes a fresh identity together with those entries, and the copy keeps the old one *)
+    match get_validator s a with
+    | (s1, None) => Some s1
+    | (s1, Some old) =>
+      let nw := set_oid (apply_upd old u) (fresh_oid s1) in
+      update_validator (w_vjournal s1 (map (retarget a old nw) (vjournal s1))) nw old
     end
   | ORemove a => remove_validator s a
   | ODelegate d a amt =>
@@ -757,7 +806,7 @@ Fixpoint run (s : state) (l : list op) : option state :=
 
 (* value-level view of a validator: scalars + delegation list *)
 Definition xval := (val * list dfrom)%type.
-Definition norm (v : val) : val := set_deleted (set_view v 0%nat 0%nat) false.
+Definition norm (v : val) : val := set_oid (set_deleted (set_view v 0%nat 0%nat) false) 0%nat.
 Fixpoint dget (l : list dfrom) (d : Z) : option dfrom :=
   match l with
   | [] => None
